@@ -1048,3 +1048,82 @@ Proof.
   unfold cast. rewrite N.mod_small; [assumption|].
   unfold Bucket.cost, Bucket.MIN_COST. change (pow2 32) with 4294967296. lia.
 Qed.
+
+(* ---- where the packets in the store come from (D04 over histories) ------------------------------- *)
+(* step [x] asked the upstream for key [k] (class IN) and the answer it accepted was [m] *)
+Definition fetched_in (x : sin) (k : DnsCache.key) (m : pkt) : Prop :=
+  exists q, decode (x_b x) = Ok q /\ key_of q = k /\ qclass q = 1 /\
+            fst (out_query (x_tcp x) (x_id x) (x_u x)) = UOk m.
+
+Definition store_prov (pre : list sin) (st : pstate) : Prop :=
+  forall k m, store_lookup k (s_store st) = Some m -> exists x, In x pre /\ fetched_in x k m.
+
+Lemma cache_stage_store st q tcp t_ns srv id u r c' store' qs :
+  cache_stage st q tcp t_ns srv id u = Ok (r, c', store', qs) ->
+  store' = s_store st \/
+  exists m, fst (out_query tcp id u) = UOk m /\ qclass q = 1 /\ store' = store_insert (key_of q) m (s_store st).
+Proof.
+  unfold cache_stage. set (o := out_query tcp id u).
+  destruct (DnsCache.handle (s_cache st) (key_of q) (qclass q) t_ns t_ns (abs_result (fst o))) as [[res cc] asked].
+  destruct asked.
+  - destruct (encode (outquery id q)); cbn [obind]; try discriminate. intro H. inversion H; subst.
+    destruct (fst o) as [m|e] eqn:FO; [|auto].
+    destruct (N.eqb_spec (qclass q) 1) as [QC|]; cbn [andb]; [|auto].
+    destruct (0 <? DnsCache.calculate_expiry (abs_result (UOk m))); [|auto].
+    right. exists m. auto.
+  - destruct res as [[r'|e]| |]; try discriminate.
+    + destruct (store_lookup (key_of q) (s_store st)); try discriminate. intro H. inversion H; auto.
+    + intro H. inversion H; auto.
+Qed.
+
+Lemma step_store_prov mac c st x st' out qs pre :
+  store_prov pre st -> step mac c st x = Ok (st', out, qs) -> store_prov (pre ++ [x]) st'.
+Proof.
+  intros SP H. unfold step in H.
+  assert (MONO : store_prov (pre ++ [x]) st).
+  { intros k m L. destruct (SP k m L) as (x0 & I0 & F0). exists x0. split; [apply in_or_app; auto | assumption]. }
+  destruct (decode (x_b x)) as [q|e|p] eqn:D.
+  - destruct (dns_step_inv _ _ _ _ _ _ _ _ _ _ _ _ _ _ _ _ _ D H)
+      as (rt & reply & c' & store' & bytes & drop & bs & F & S & W & L & -> & ->).
+    destruct rt as [srv|kind]; cbn [staged_of] in S.
+    + destruct (cache_stage st q (x_tcp x) (x_tns x) srv (x_id x) (x_u x)) as [[[[r cc] ss] qq]| |] eqn:CS;
+        cbn [obind] in S; try discriminate. inversion S; subst.
+      destruct (cache_stage_store _ _ _ _ _ _ _ _ _ _ _ CS) as [->|(m & FO & QC & ->)].
+      * exact MONO.
+      * intros k m' L'. cbn [s_store] in L'. rewrite store_lookup_insert in L'.
+        destruct (DnsCache.key_eqb k (key_of q)) eqn:KE.
+        -- inversion L'; subst m'. apply Proofs.DnsCache.key_eqb_eq in KE. subst k.
+           exists x. split; [apply in_or_app; right; left; reflexivity|]. exists q. auto.
+        -- apply (MONO k m' L').
+    + inversion S; subst. exact MONO.
+  - unfold dns_step in H. rewrite D in H. inversion H; subst. exact MONO.
+  - unfold dns_step in H. rewrite D in H. discriminate.
+Qed.
+
+(* the state reached by a history *)
+Fixpoint reach mac c st (xs : list sin) : option pstate :=
+  match xs with
+  | [] => Some st
+  | x :: r => match step mac c st x with Ok (st', _, _) => reach mac c st' r | _ => None end
+  end.
+
+Lemma reach_store_prov mac c : forall xs pre st st',
+  store_prov pre st -> reach mac c st xs = Some st' -> store_prov (pre ++ xs) st'.
+Proof.
+  induction xs as [|x r IH]; intros pre st st' SP H; simpl in H.
+  - inversion H; subst. rewrite app_nil_r. assumption.
+  - destruct (step mac c st x) as [[[st1 out] qs]| |] eqn:E; try discriminate.
+    replace (pre ++ x :: r) with ((pre ++ [x]) ++ r) by (rewrite <- app_assoc; reflexivity).
+    eapply IH; [|eassumption]. eapply step_store_prov; eassumption.
+Qed.
+
+(* from a state with an empty store: every packet the cache stage can ever relay from the cache is
+   what the upstream answered to an EARLIER query of the history with the identical key, class IN *)
+Lemma store_provenance mac c st0 xs st k m :
+  s_store st0 = [] -> reach mac c st0 xs = Some st ->
+  store_lookup k (s_store st) = Some m -> exists x, In x xs /\ fetched_in x k m.
+Proof.
+  intros E R L. apply (reach_store_prov mac c xs [] st0 st) in R.
+  - apply (R k m L).
+  - intros k' m' L'. rewrite E in L'. discriminate.
+Qed.
